@@ -279,7 +279,11 @@ func authorizeQuery(acl ACL, query string) (bool, string, []string, bool) {
 	if len(acl.Allow) == 0 && len(acl.Deny) == 0 {
 		return true, "", nil, false
 	}
-	parsed, err := kafsql.Parse(trimmed)
+	// Parse the text as it will be forwarded: the upstream parses that text, and
+	// the parser strips one trailing ';' itself. Parsing the copy trimmed above
+	// would strip two ("... FROM orders;;" would be checked as topic "orders"
+	// while the upstream reads "orders;").
+	parsed, err := kafsql.Parse(query)
 	if err != nil {
 		return false, "proxy cannot authorize query", nil, false
 	}
